@@ -90,7 +90,31 @@ witness_d2_alt.__name__ = "witness_d2"
 witness_d3_alt.__name__ = "witness_d3"
 ALT = {1: witness_d1_alt, 2: witness_d2_alt, 3: witness_d3_alt}
 
+def _mut(theta, N, seed, D):
+    """A model that tidies its parameter vector in place (sorts it) after using it - legitimate user code: the library must
+    hand every call its own copy, so nothing it records may change."""
+    out = _witness(theta, N, seed, D)
+    try:
+        theta.sort()
+    except (ValueError, AttributeError):
+        pass
+    return out
+
+
+def witness_mut_d1(theta, N, seed):
+    return _mut(theta, N, seed, 1)
+
+
+def witness_mut_d2(theta, N, seed):
+    return _mut(theta, N, seed, 2)
+
+
+def witness_mut_d3(theta, N, seed):
+    return _mut(theta, N, seed, 3)
+
+
 WITNESS = {
+    ("mut", 1): witness_mut_d1, ("mut", 2): witness_mut_d2, ("mut", 3): witness_mut_d3,
     ("plain", 1): witness_d1, ("plain", 2): witness_d2, ("plain", 3): witness_d3,
     ("huge", 1): witness_huge_d1, ("huge", 2): witness_huge_d2, ("inf", 1): witness_inf_d1, ("f32", 1): witness_f32_d1,
 }
@@ -129,18 +153,23 @@ class InjectedFault(Exception):
     """The exception the fault injectors raise."""
 
 
+class InjectedInterrupt(KeyboardInterrupt):
+    """A fault that is not an Exception subclass (what Ctrl-C during a simulation raises)."""
+
+
 class FailAtCall:
     """Witness model that raises InjectedFault at its k-th invocation (counter in this process: n_jobs=1)."""
 
-    def __init__(self, D, k):
+    def __init__(self, D, k, exc=None):
         self.D, self.k, self.calls = D, k, 0
+        self.exc = exc or InjectedFault
         self.__name__ = WITNESS[("plain", D)].__name__
 
     def __call__(self, theta, N, seed):
         i = self.calls
         self.calls += 1
         if i == self.k:
-            raise InjectedFault(f"model call {i}")
+            raise self.exc(f"model call {i}")
         return _witness(theta, N, seed, self.D)
 
 
